@@ -33,7 +33,7 @@ func (c *verifC18Compressor) Compress(dst *bytes.Buffer, src []byte, flags ...Co
 		return nil, CodecError
 	}
 	n := c.outLen
-	if n >= 1000 { // relative to the input: 1000 = same length, 1001 = one longer, 999 = one shorter
+	if n >= 900 { // 900..1100 are relative to the input: 1000 = same length, 1001 = one longer, 999 = one shorter
 		n = len(src) + (n - 1000)
 	}
 	c.out = verifNondetBytes("compressed", n)
